@@ -151,7 +151,7 @@ Example C16_ex_gen_checks :
   (def_before_use generation_inputs (generation_prog 0 3 G3),
    inserted_before_lookup (generation_prog 0 3 G3),
    tmp_balanced (generation_prog 0 3 G3), forallb block_ok (gen_blocks G3),
-   length (generation_prog 0 3 G3)) = (true, true, true, true, 91).
+   length (generation_prog 0 3 G3)) = (true, true, true, true, 87).
 Proof. vm_compute. reflexivity. Qed.
 
 (* the check is not vacuous: without the four truncations the append-mode files are flagged ... *)
